@@ -40,7 +40,7 @@ CLAIMS = {
  "C15": ("loadCachedWithFrontMatter with the cache as an object invariant of Vue (every entry is the parse of its file at the entry's mtime): a successful load returns the parse for the file's current mtime, a file that cannot be stat-ed is an error, a failed load leaves the cache unchanged, the invariant is re-established on every path.",
          "assumes (trusted contract of loadFragment) that a read returns the content belonging to the mtime a Stat reports at that moment, and equal non-zero mtime => equal content (the cache's documented assumption); Load/include paths that bypass the cache are not related to it by contract."),
  "C16": ("In evaluate, whenever control reaches the v-pre/v-for/v-if dispatch for an element carrying v-once, its id is already recorded in the per-render seen set (assert-at clause); NewVueContext creates a fresh empty seen set; WithTemplate shares it along the include chain.",
-         "assignOnceIDs (recursive closure over the tree) is a trusted contract: distinct non-empty ids per parse are not proved (witness tests only); skipping of already-seen elements is not stated as a clause; an element that still carries v-for is exempt from the marking clause (its per-item clones are checked instead)."),
+         "assignOnceIDs (recursive closure over the tree) is a trusted contract: distinct non-empty ids per parse are not proved. 'Emitted exactly once if reached, distinct elements never suppress one another, same for every entry point' is covered only by a BOUNDED stand-in (bounded/C16__vonce__root.go.txt: 13 shapes x 3 companions x 4 entry points = 156 templates, each rendered twice), reported under coverage.bounded and never counted as proved; skipping of already-seen elements is not stated as a clause; an element that still carries v-for is exempt from the marking clause (its per-item clones are checked instead)."),
  "C19": ("Formatter output functions: escapeText equals a recursive spec for all strings (outside complete mustaches & < > become references, mustaches are copied byte for byte); renderOpenTag writes every attribute value between double quotes with its own double quotes as &quot; (exact recursive spec over the attribute list).",
          "FormatAttr (regexp) is a trusted contract; idempotence and parse-equivalence of whole documents are relations through the external HTML5 parser and are not decided; front-matter/doctype/raw-text clauses not under contract."),
  "C17": ("Stack as a scope stack: Lookup = innermost binding else root field (recursive spec lookupIdx, loop invariant), Set touches only the top scope, Push/Pop restore the scope list, Pop keeps >= 1 scope, EnvMap agrees with Lookup, Copy is fresh and equal; object invariant len(pooled)==len(stack).",
